@@ -4,8 +4,11 @@ import (
 	"fmt"
 	"math/rand"
 	"os"
+	"path/filepath"
+	"regexp"
 	"runtime"
 	"sort"
+	"strconv"
 	"strings"
 	"sync"
 	"sync/atomic"
@@ -32,7 +35,7 @@ type c07Case struct {
 }
 
 var c07Schedules = []string{"plain", "wake-before-closed", "wake-after-close", "delays"}
-var c07Lives = []string{"before-data", "first-segment-open", "mid-stream", "mid-stream"}
+var c07Lives = []string{"before-data", "first-segment-open", "mid-stream", "mid-stream", "failed-rotation"}
 
 func genC07Case(seed int64, idx int) *c07Case {
 	rng := rand.New(rand.NewSource(seed*48271 + int64(idx)*16807 + 9))
@@ -41,6 +44,9 @@ func genC07Case(seed int64, idx int) *c07Case {
 	c.Schedule = c07Schedules[(idx/3)%len(c07Schedules)]
 	c.Life = c07Lives[(idx/12)%len(c07Lives)]
 	c.Disk = rng.Intn(2) == 0
+	if c.Life == "failed-rotation" {
+		c.Disk = true // the rotation fails because the next segment file cannot be created
+	}
 	kinds := []string{"mv-wait", "media-wait", "blocking-reload", "preload-hint"}
 	n := rng.Intn(5)
 	for i := 0; i < n; i++ {
@@ -51,6 +57,15 @@ func genC07Case(seed int64, idx int) *c07Case {
 	}
 	c.Closes = 1
 	return c
+}
+
+var reSegName = regexp.MustCompile(`^(.*_)seg([0-9]+)(\.[a-z0-9]+)$`)
+
+func baseName(u string) string {
+	if i := strings.IndexByte(u, '?'); i >= 0 {
+		u = u[:i]
+	}
+	return u[strings.LastIndexByte(u, '/')+1:]
 }
 
 type c07Result struct {
@@ -78,6 +93,7 @@ func runC07Case(cc *c07Case) *c07Result {
 
 	// advance to the life point
 	contentAt := -1
+	blocker := ""
 	stopAt := 0
 	var lastPL *m3u8x.Media
 	lead := h.LeadingStream()
@@ -107,6 +123,26 @@ func runC07Case(cc *c07Case) *c07Result {
 		}
 		if cc.Life == "mid-stream" && contentAt >= 0 && i > contentAt+5 && rng.Intn(10) == 0 {
 			break
+		}
+		if cc.Life == "failed-rotation" && contentAt >= 0 && i > contentAt+2 && blocker == "" && lastPL != nil && len(lastPL.Segments) > 0 {
+			// a directory squats the name of the segment file after the open one: the rotation that
+			// needs it fails, the Write returns an error and the muxer is closed (what callers do)
+			last := lastPL.Segments[len(lastPL.Segments)-1]
+			name := baseName(last.URI)
+			if m := reSegName.FindStringSubmatch(name); m != nil {
+				n, _ := strconv.Atoi(m[2])
+				blocker = fmt.Sprintf("%sseg%d%s", m[1], n+2, m[3])
+				if err := os.Mkdir(filepath.Join(h.Dir, blocker), 0o755); err != nil {
+					blocker = ""
+				}
+			}
+		}
+	}
+	if cc.Life == "failed-rotation" {
+		if blocker == "" || stopAt == limit {
+			res.obs["inconclusive_rotation_did_not_fail"]++
+		} else {
+			res.obs["closed_after_failed_rotation"]++
 		}
 	}
 	_ = stopAt
@@ -312,12 +348,14 @@ func runC07Case(cc *c07Case) *c07Result {
 	if h.Dir != "" {
 		ents, _ := os.ReadDir(h.Dir)
 		res.obs["dir_checked"]++
-		if len(ents) != 0 {
-			var names []string
-			for _, e := range ents {
+		var names []string
+		for _, e := range ents {
+			if e.Name() != blocker {
 				names = append(names, e.Name())
 			}
-			fail("files-left", "Directory still holds %d files after Close: %v", len(ents), names)
+		}
+		if len(names) != 0 {
+			fail("files-left", "Directory still holds %d files after Close (life %s): %v", len(names), cc.Life, names)
 		}
 	}
 	res.sig = fmt.Sprintf("v%d|%s|%s|%v|%v", cc.Variant, cc.Life, cc.Schedule, kindsOf07(cc, pending), cc.Disk)
